@@ -4,7 +4,7 @@ then build pillars *by name* (format! + from_name) can be executed symbolically 
 Every axiom below is a fact about repository code that is discharged by another obligation of this framework
 (named in AXIOMS); the evidence of each kernel lists the axioms it used."""
 import re, os
-from .mir import T, I, Rec, Ref, Tup, Opaque, Bytes, IFloat, HalfFloat, Unsupported, cmp, arith, app
+from .mir import T, I, Rec, Ref, Tup, Opaque, Bytes, IFloat, HalfFloat, Unsupported, cmp, arith, app, SymOption, VecV
 
 SIZES = {"Animal": 28, "Beast": 4, "Constellation": 12, "Direction": 9, "Duty": 12, "Element": 5, "God": 151, "Land": 9, "Luck": 2, "Phase": 30, "Sixty": 3,
          "Sound": 30, "Taboo": 141, "Ten": 6, "Terrain": 12, "Twenty": 9, "Week": 7, "Zodiac": 12, "Zone": 4, "Dog": 3, "Nine": 9, "PlumRain": 2, "Phenology": 72,
@@ -134,6 +134,48 @@ class Model:
         if re.match(r"^core::num::<impl \w+>::abs$", callee) and isinstance(a[0], T):
             x = a[0]
             return True, T("(ite (< %s 0) (- %s) %s)" % (x.s, x.s, x.s), "Int")
+        # ---- local vectors and integer ranges (for `for i in a..b` / push loops)
+        if callee.startswith("Vec::<") and callee.endswith("::new"):
+            return True, VecV([])
+        if callee.startswith("Vec::<") and callee.endswith("::push"):
+            ref = args[0]
+            if isinstance(ref, Ref) and not ref.proj and isinstance(ref.frame["vals"].get(ref.local), VecV):
+                nv = VecV(ref.frame["vals"][ref.local].items + [a[1]])
+                ref.frame["vals"][ref.local] = nv
+                if fr["fn"] is ref.frame["fn"]:
+                    fr["vals"][ref.local] = nv
+                return True, Opaque("unit")
+            raise Unsupported("Vec::push on something that is not a modelled local vector")
+        if re.match(r"^<(std::ops::)?Range<\w+> as Iterator>::step_by$", callee) and isinstance(a[0], Rec) and getattr(a[0], "named", None) and isinstance(a[1], T) and a[1].c:
+            r = Rec(ctx, a[0].name + "/step", None)
+            r.named = dict(a[0].named, step=a[1])
+            return True, r
+        if re.match(r"^<StepBy<(std::ops::)?Range<\w+>> as IntoIterator>::into_iter$", callee) and isinstance(a[0], Rec) and getattr(a[0], "named", None):
+            return True, a[0]
+        if re.match(r"^<(std::ops::)?Range<\w+> as IntoIterator>::into_iter$", callee) and isinstance(a[0], Rec) and getattr(a[0], "named", None):
+            return True, a[0]
+        if re.match(r"^<(StepBy<)?(std::ops::)?Range<\w+>>? as Iterator>::next$", callee):
+            ref = args[0]
+            rng = a[0]
+            if isinstance(ref, Ref) and not ref.proj and isinstance(rng, Rec) and getattr(rng, "named", None) and set(rng.named) - {"step"} == {"start", "end"}:
+                st, en = rng.named["start"], rng.named["end"]
+                step = rng.named["step"].c if "step" in rng.named else 1
+                adv = Rec(ctx, rng.name + "'", getattr(rng, "ty", None))
+                # on None the range is left as it is (start >= end); on Some(start) it advances — one record serves both: start' = start + (1 if start < end)
+                cond = cmp("<", st, en)
+                if cond.c is True:
+                    nst = arith("+", st, I(step))
+                elif cond.c is False:
+                    nst = st
+                else:
+                    nst = ctx.fresh_value("range_cursor", "isize")
+                    path.pc.append(T("(= %s (ite %s (+ %s %d) %s))" % (nst.s, cond.s, st.s, step, st.s), "Bool"))
+                adv.named = dict(rng.named, start=nst)
+                ref.frame["vals"][ref.local] = adv
+                if fr["fn"] is ref.frame["fn"]:
+                    fr["vals"][ref.local] = adv
+                return True, SymOption(cond, st)
+            raise Unsupported("Range::next on something that is not a modelled local range")
         if callee.startswith("core::fmt::rt::Argument") and "new_display" in callee:
             return True, Disp(a[0])
         if re.match(r"^Arguments::<'_>::new::<\d+, \d+>$", callee) or callee.startswith("core::fmt::Arguments::<'_>::new"):
